@@ -281,8 +281,10 @@ class UpdateStd(Spec):
     def configs(self):
         return [dict(rank=0), dict(rank=1), dict(rank=2)]
 
+    sampler_class = "leaspy.samplers.gibbs:IndividualGibbsSampler"
+
     def setup(self, cx, cfg):
-        from leaspy.samplers.gibbs import IndividualGibbsSampler
+        IndividualGibbsSampler = resolve(self.sampler_class)        # the class whose (possibly overridden) method is verified
         r = cfg["rank"]
         dims = tuple(z3.Int(f"n{k}") for k in range(r))
         L = cx.int("L")
@@ -414,6 +416,17 @@ class SamplerConstructors(Spec):
 
 
 
+def _update_std_units():
+    """the adaptation rule as each concrete sampler class runs it (an override in a sub-class is what gets verified)"""
+    out = [UpdateStd()]          # the mixin's own function
+    for cls, ranks in (("IndividualGibbsSampler", (1,)), ("PopulationGibbsSampler", (0, 1, 2)), ("PopulationFastGibbsSampler", (0, 1)),
+                       ("PopulationMetropolisHastingsSampler", (0,))):
+        sub = type("UpdateStd_" + cls, (UpdateStd,), dict(target=f"leaspy.samplers.gibbs:{cls}._update_std", sampler_class=f"leaspy.samplers.gibbs:{cls}",
+                                                          configs=(lambda self, ranks=ranks: [dict(rank=r_) for r_ in ranks]), __doc__=UpdateStd.__doc__))
+        out.append(sub())
+    return out
+
+
 def _constructor_units():
     out = [SamplerConstructors()]
     for kind, cls in (("pop-gibbs", "PopulationGibbsSampler"), ("pop-fast", "PopulationFastGibbsSampler"), ("pop-mh", "PopulationMetropolisHastingsSampler")):
@@ -424,7 +437,7 @@ def _constructor_units():
 
 
 UNITS = _constructor_units() + [AnnealingInit(), InitializeAnnealing(), UpdateTemperature(), SetAcceptationBounds(),
-         SetAdaptiveStdFactor(), UpdateStd(), UpdateAcceptationRate()]
+         SetAdaptiveStdFactor()] + _update_std_units() + [UpdateAcceptationRate()]
 CALLEES = []
 
 NOT_DECIDED = ["overflow/underflow of std after ~930 consecutive one-sided adaptations (arithmetic treated as mathematical)",
